@@ -17,8 +17,8 @@ RULE = ('logit matrices T(3-40) x C(3-12): dense at several temperatures, sparse
 ASSUMPTIONS = ['shift invariance is judged on matrices whose entries are all stored (sparse-with-floor replaces pruned entries by a fixed floor, so a shift of the stored ones is not a shift of "all logits of the frame")',
                'no stored logit is exactly 0.0', 'tolerance 1e-9 (float64)']
 N = {'quick': 3000, 'thorough': 100000}
-CLASSES = ['dense', 'dense_peaky', 'sparse_floor', 'onehot', 'transformer', 'bag', 'bag_lm', 'bag_extreme', 'threshold', 'alto_wc', 'tiny_logits', 'alto_word_onehot', 'parser_update', 'long_line', 'window_equals_text', 'merged_confidences']
-REQUIRED = ['merged_line_confidences_checked', 'page_decoder_thresholds_checked', 'window_equals_text_lines', 'lines_over_1000_frames', 'word_onehot_lines', 'parser_updates', 'tiny_logit_lines', 'repeated_calls_checked', 'bag_history_steps', 'repo_tests_under_contracts', 'line_conf_checked', 'shift_checked', 'onehot_checked', 'letter_conf_checked', 'page_conf_checked', 'bag_checked', 'monotone_checked', 'wc_checked',
+CLASSES = ['dense', 'dense_peaky', 'sparse_floor', 'onehot', 'transformer', 'bag', 'bag_lm', 'bag_extreme', 'threshold', 'alto_wc', 'tiny_logits', 'alto_word_onehot', 'parser_update', 'long_line', 'window_equals_text', 'merged_confidences', 'alto_uncertain_word']
+REQUIRED = ['second_exports_after_new_logits', 'pages_with_two_character_tables', 'uncertain_words_checked', 'merged_line_confidences_checked', 'page_decoder_thresholds_checked', 'window_equals_text_lines', 'lines_over_1000_frames', 'word_onehot_lines', 'parser_updates', 'tiny_logit_lines', 'repeated_calls_checked', 'bag_history_steps', 'repo_tests_under_contracts', 'line_conf_checked', 'shift_checked', 'onehot_checked', 'letter_conf_checked', 'page_conf_checked', 'bag_checked', 'monotone_checked', 'wc_checked',
             'contract:get_line_confidence in [0,1], one per label', 'contract:posteriors <= 0 and sum to 1', 'contract:compute_line_confidence in [0,1]']
 TOL = 1e-9
 
@@ -45,6 +45,8 @@ def gen(rng, i, ctx):
         return {'cls': cls, 'words': [w1, w2], 'onehot_word': int(rng.integers(0, 2)), 'seed': int(rng.integers(0, 1 << 30))}
     if cls == 'parser_update':
         return {'cls': cls, 'seed': int(rng.integers(0, 1 << 30)), 'n': int(rng.integers(1, 5))}
+    if cls == 'alto_uncertain_word':
+        return {'cls': cls, 'seed': int(rng.integers(0, 1 << 30)), 'words': int(rng.integers(3, 7)), 'margin': float(rng.choice([14.0, 16.0, 18.0, 25.0, 100.0]))}
     if cls == 'merged_confidences':
         return {'cls': cls, 'seed': int(rng.integers(0, 1 << 30)), 'engines': int(rng.integers(1, 4)), 'lines': int(rng.integers(1, 5))}
     if cls == 'window_equals_text':
@@ -161,6 +163,8 @@ def check(case, mon, ctx):
         return check_window_equals_text(case, mon, ctx)
     if cls == 'merged_confidences':
         return check_merged_confidences(case, mon, ctx)
+    if cls == 'alto_uncertain_word':
+        return check_uncertain_word(case, mon, ctx)
     lg, labels = case['logits'], case['labels']
     C = lg.shape[1]
     if len(labels) >= 2:
@@ -401,6 +405,15 @@ def check_word_onehot(case, mon, ctx):
     if abs(got[hot][1] - 1.0) > 0.006:
         mon.violation('one-hot-gives-1', {'function': 'ALTO word confidence', 'text': text, 'one_hot_word': case['words'][hot], 'word_confidences': got,
                       'note': 'every frame of this word (and of the neighbouring separator) is one-hot, the other word is noisy'})
+    # history on the line object: it is recognised again (same text, same number of frames, the glyphs one frame later) and the page is exported again
+    line.logits = sparse.csc_matrix(np.roll(lg, 1, axis=0))
+    xml2 = page.to_altoxml_string()
+    got2 = [float(x) for x in re.findall(r'WC="([^"]*)"', xml2)]
+    if len(got2) == 2:
+        mon.count('second_exports_after_new_logits')
+        if abs(got2[hot] - 1.0) > 0.006:
+            mon.violation('one-hot-gives-1', {'function': 'ALTO word confidence, second export after the line received new logits (same text and frame count, glyphs one frame later)',
+                          'text': text, 'one_hot_word': case['words'][hot], 'word_confidences': got2})
 
 
 def check_parser_update(case, mon, ctx):
@@ -481,10 +494,19 @@ def check_window_equals_text(case, mon, ctx):
             mon.violation('one-hot-gives-1', {'function': 'get_line_confidence (%s)' % name, 'text': text, 'window': [p0, p0 + n], 'frames': int(lg.shape[0]), 'confidences': c})
     page = L.PageLayout(id='p', page_size=(1500, 2000))
     reg = L.RegionLayout('r1', np.array([[0, 0], [2000, 0], [2000, 1500], [0, 1500]]))
+    # the page also holds a line of another engine: the same symbols in another order (as after merging engine outputs)
+    chars2 = chars[1:] + chars[:1]
+    lg_o = np.full((n + 2, C), -60.0)
+    lg_o[np.arange(1, n + 1), [chars2.index(ch) for ch in text]] = 40.0
+    lg_o[[0, n + 1], C - 1] = 40.0
+    b2, h2, p2 = genlib.straight_line_geometry(rng)
+    other = L.TextLine(id='r1-l0', baseline=b2, polygon=p2, heights=h2, transcription=text, logits=sparse.csc_matrix(lg_o), characters=chars2 + ['<blank>'], logit_coords=[0, n + 2])
+    reg.lines.append(other)
     reg.lines.append(line); page.regions.append(reg)
     xml = page.to_altoxml_string(min_line_confidence=0.5)
     wc = [float(x) for x in re.findall(r'\bWC="([^"]*)"', xml)]
-    if not wc or any(abs(w - 1.0) > 0.006 for w in wc):
+    mon.count('pages_with_two_character_tables')
+    if len(wc) != 2 or any(abs(w - 1.0) > 0.006 for w in wc):        # one word per line, both lines one-hot: nothing may be dropped at threshold 0.5
         mon.violation('one-hot-gives-1', {'function': 'ALTO export with min_line_confidence=0.5', 'text': text, 'word_confidences': wc, 'line_confidence': line.transcription_confidence})
 
 
@@ -530,3 +552,55 @@ def check_merged_confidences(case, mon, ctx):
     if bad:
         mon.violation('merged-line-confidence-in-unit-interval', {'written_to_page_xml': bad[:4]})
     mon.mark_nontrivial()
+
+
+def check_uncertain_word(case, mon, ctx):
+    """a line of confident words (every letter's posterior within 1e-5 of 1, or exactly 1) with one word whose letters are tied 0.5 / 0.5 with another symbol:
+    the exported confidence of that word is (about) 0 - unless the line's median letter confidence is EXACTLY 1, for which the exporter writes 1 for every word"""
+    L = ctx.layout
+    rng = np.random.default_rng(case['seed'])
+    chars = list('abcdefg') + [' ']
+    C = len(chars) + 1
+    nw = case['words']
+    words = [''.join(chars[int(k)] for k in rng.integers(0, 7, size=int(rng.integers(2, 6)))) for _ in range(nw)]
+    bad = int(rng.integers(0, nw))
+    words[bad] = ''.join(chars[int(k)] for k in rng.integers(0, 3, size=int(rng.integers(1, 3))))          # the uncertain word is short: the line median stays with the confident letters
+    text = ' '.join(words)
+    path, owner, prev, w = [C - 1], [None], None, 0
+    for ch in text:
+        lab = chars.index(ch)
+        if ch == ' ':
+            w += 1
+        if lab == prev:
+            path.append(C - 1); owner.append(None)
+        path.append(lab); owner.append(w if ch != ' ' else None)
+        prev = lab
+    path.append(C - 1); owner.append(None)
+    T = len(path)
+    lg = np.zeros((T, C))
+    lg[np.arange(T), path] = case['margin']
+    for t in range(T):
+        if owner[t] == bad:
+            lg[t] = -30.0
+            lg[t, path[t]] = 5.0
+            lg[t, 3 + (path[t] + 1) % 4] = 5.0            # a competitor that is none of the word's own letters (those are among a, b, c)
+    lg[lg == 0] = 0.001
+    baseline, heights, poly = genlib.straight_line_geometry(rng)
+    page = L.PageLayout(id='p', page_size=(1500, 2000))
+    reg = L.RegionLayout('r1', np.array([[0, 0], [2000, 0], [2000, 1500], [0, 1500]]))
+    line = L.TextLine(id='r1-l1', baseline=baseline, polygon=poly, heights=heights, transcription=text, logits=sparse.csc_matrix(lg), characters=chars + ['<blank>'], logit_coords=[0, T])
+    reg.lines.append(line); page.regions.append(reg)
+    xml = page.to_altoxml_string()
+    wc = [float(x) for x in re.findall(r'\bWC="([^"]*)"', xml)]
+    if len(wc) != nw:
+        return
+    mon.count('uncertain_words_checked')
+    mon.mark_nontrivial()
+    med = line.transcription_confidence
+    exactly_one = med is not None and float(med) == 1.0
+    mon.count('lines_with_median_exactly_1' if exactly_one else 'lines_with_median_just_below_1')
+    if not in_unit(wc):
+        mon.violation('word-confidence-in-unit-interval', {'text': text, 'wc': wc})
+    if not exactly_one and wc[bad] > 0.02:
+        mon.violation('computed-from-normalised-posteriors', {'function': 'ALTO word confidence', 'text': text, 'uncertain_word': words[bad], 'word_confidences': wc, 'line_confidence': float(med),
+                      'note': 'every letter of this word is tied 0.5 / 0.5 with another symbol; the line median is below 1'})
